@@ -78,6 +78,10 @@ func startGetTraversal(
 		NodeFilter: s.TraversalNodeFilter,
 	})
 	nodes, err := s.TraversalStartingNodes()
+	if err != nil {
+		op.Stop()
+		return
+	}
 	op.AddNodes(nodes)
 	return
 }
